@@ -7,8 +7,8 @@ PROPS["C05"] = dict(
     level="proof",
     steps=[
         dict(kind="verus", unit="c05_krauss", code_functions=["wildcard_match"],
-             witness=dict(crate="humphrey", module="in_app", timeout=1500,
-                          harnesses=["c05_witness_1x2", "c05_witness_3x3"])),
+             witness=dict(crate="humphrey", module="in_app", timeout=600,
+                          harnesses=["c05_witness_1x2", "c05_witness_2x2"])),
     ],
     assumptions=[
         "Peekable<Chars> is a cursor over str::chars(): peek = head, next = pop, clone = same position (assume_specification in contracts/c05_krauss.vrs)",
